@@ -401,7 +401,9 @@ func Main(args []string) int {
 			runErr = fmt.Errorf("run observed too little: evaluations=%d distinct_nontrivial=%d", c.Ev.Evals(), c.Ev.DistinctCount())
 		}
 	}
-	if replay == "" {
+	// VERIF_NO_EVIDENCE=1: sensitivity runs against scratch worktrees (tools/run_seed.sh)
+	// must not overwrite the evidence of the real tree.
+	if replay == "" && os.Getenv("VERIF_NO_EVIDENCE") == "" {
 		if err := c.writeEvidence(ent.level); err != nil {
 			fmt.Fprintf(os.Stderr, "vcheck: evidence: %v\n", err)
 			return 2
